@@ -43,8 +43,8 @@ def classify(kind, s, tx_ok, ref_ok):
     return None
 
 
-def check_string(ctx, s, origin):
-    for kind, fname in VALIDATORS:
+def check_string(ctx, s, origin, order=None):
+    for kind, fname in (order or VALIDATORS):
         ref_ok = G.VALIDATORS[kind](s)
         tx_ok, exc = tx_accepts(fname, s)
         ctx.count('evaluations')
@@ -137,6 +137,9 @@ def run(ctx):
             if n % shard_n != shard_i:
                 continue
             check_string(ctx, ''.join(tup), 'exhaustive')
+            if n % 2:
+                # a validator's verdict must not depend on which validators saw the string before
+                check_string(ctx, ''.join(tup), 'exhaustive-reversed', list(reversed(VALIDATORS)))
     ctx.note('exhaustive_bound', {'alphabet': ALPHABET, 'max_len': L, 'strings': n})
     ctx.exhaustive = True
     ctx.sample({'string': 'a.b-1:', 'grammar': {k: G.VALIDATORS[k]('a.b-1:') for k, _ in VALIDATORS}})
